@@ -43,6 +43,7 @@ PROBES = [
     "shared-triple-removed-from-one-graph",
     "first-triple-of-store-in-operand-graph",
     "binop",
+    "source-died-mid-batch",
 ]
 KNOWN_PREDICATES = {}
 
@@ -201,6 +202,10 @@ def generate(seed, tier):
             else:
                 lst = [tri() for _ in range(g.randint(0, 4))] + ([g.pick(present("G"))] if model["G"] else [])
                 op["other"] = {"list": lst}
+                if lst and g.chance(0.3):
+                    # fault: the iterable raises after yielding k elements (a source that dies mid-way)
+                    op["other"]["fail_after"] = g.randrange(len(lst) + 1)
+                    lst = lst[: op["other"]["fail_after"]]
                 oset = {tt(t) for t in lst}
             if kind == "iadd":
                 model["G"] |= oset
@@ -263,6 +268,13 @@ def execute(trace, ctx):
             k = tuple(skey(x) for x in t)
             got = (T(t[0]), T(t[1]), T(t[2])) in g
             ctx.check(got == (k in m), "C01.membership", lambda: f"{where}: {t} in {name} -> {got}, model says {k in m}")
+        if len(preds) >= 2:
+            # triples_choices: a list in one slot means the union over its members
+            for s_ in subs[:2] + [None]:
+                for o_ in objs[:2] + [None]:
+                    got = {tkey(t) for t in g.triples_choices((T(s_), [T(preds[0]), T(preds[1])], T(o_)))}
+                    exp = {t for t in m if match((s_, preds[0], o_), t) or match((s_, preds[1], o_), t)}
+                    ctx.check(got == exp, "C01.triples-choices", lambda: f"{where}: triples_choices(({s_}, [{preds[0]}, {preds[1]}], {o_})) on {name}: missing={_srt(exp - got)} extra={_srt(got - exp)}")
         for pat in vpat:
             res = [tkey(t) for t in g.triples((T(pat[0]), T(pat[1]), T(pat[2])))]
             exp = {t for t in m if match(pat, t)}
@@ -371,9 +383,23 @@ def execute(trace, ctx):
                 ctx.probe("reader-yielded-since-removed")
             ctx.log("reader-yield", f"r{rid} {k}")
 
+    class SourceDied(Exception):
+        pass
+
     def operand(spec):
         if isinstance(spec, dict):
-            return [(T(a), T(b), T(c)) for a, b, c in spec["list"]], {tuple(skey(x) for x in t) for t in spec["list"]}
+            lst = spec["list"]
+            if spec.get("fail_after") is not None:
+                k = spec["fail_after"]
+
+                def dying():
+                    for a, b, c in lst[:k]:
+                        yield (T(a), T(b), T(c))
+                    ctx.fault("iterable-raised")
+                    raise SourceDied()
+
+                return dying(), {tuple(skey(x) for x in t) for t in lst[:k]}
+            return [(T(a), T(b), T(c)) for a, b, c in lst], {tuple(skey(x) for x in t) for t in lst}
         return gs[spec], set(model[spec])
 
     for n in NAMES:
@@ -456,13 +482,18 @@ def execute(trace, ctx):
             else:
                 oth, oset = operand(op["other"])
             g0 = gs["G"]
+            try:
+                if k == "iadd":
+                    store_first[0] = False
+                    g0 += oth
+                else:
+                    g0 -= oth
+            except SourceDied:
+                ctx.probe("source-died-mid-batch")  # what was handed over before the failure has been applied, nothing else
             if k == "iadd":
-                store_first[0] = False
-                g0 += oth
                 model["G"] |= oset
                 note_added("G", oset)
             else:
-                g0 -= oth
                 model["G"] -= oset
             ctx.check(g0 is gs["G"], "C01.inplace-identity", "in-place operator returned another object")
         elif k == "binop":
